@@ -30,6 +30,11 @@ NOT_REFERENCE = {
 }
 
 
+# callees whose positional arguments may be exchanged freely
+COMMUTATIVE = {"add", "multiply", "maximum", "minimum", "max", "min", "logical_and", "logical_or", "bitwise_and", "bitwise_or", "intersect1d", "union1d", "array_equal", "allclose",
+               "isclose", "zip", "issubclass_or_instance", "assert_equal", "assert_array_equal", "gcd", "lcm", "union", "intersection", "concatenate", "hstack", "vstack"}
+
+
 def anchor_modules(prop: str):
     files = []
     with open(_PROPS) as f:
@@ -127,6 +132,37 @@ def make_rule(prop: str):
                             ctx.ob(fi.where, f"the call `{callee}(...)` still passes every argument it passed on the reference tree (a dropped argument is silently replaced by the "
                                    "callee's default)", False, f"was {rc[1]} positional + {rc[2]}, now {nc[1]} positional + {nc[2]}",
                                    key=f"{prop}-T1|argument-dropped|{mod}|{qn}|{callee}")
+                # T-ORDER (arguments): the same call with the same arguments in another order
+                now_a = normalize.call_args(fi.node)
+                ref_a = ref.get("call_args", [])
+                for callee in {c[0] for c in ref_a}:
+                    if callee.split(".")[-1] in COMMUTATIVE:
+                        continue
+                    r_sites = [c for c in ref_a if c[0] == callee]
+                    n_sites = [c for c in now_a if c[0] == callee]
+                    if len(r_sites) != len(n_sites):
+                        continue
+                    for rc, nc in zip(r_sites, n_sites):
+                        if rc[1] != nc[1] and sorted(rc[1]) == sorted(nc[1]) and len(set(rc[1])) == len(rc[1]):
+                            ctx.ob(fi.where, f"the call `{callee}(...)` passes its arguments in the order confirmed on the reference tree (the same arguments in another order reach "
+                                   "different parameters)", False, f"was ({', '.join(rc[1])[:120]}), now ({', '.join(nc[1])[:120]})", key=f"{prop}-T1|argument-order|{mod}|{qn}|{callee}")
+                # T-ORDER (statements): the same statements in another order, where one of the moved statements reads or writes what the other writes
+                now_s = normalize.stmt_sequence(fi.node)
+                ref_s = ref.get("stmts", [])
+                if ref_s and sorted(x[0] for x in ref_s) == sorted(x[0] for x in now_s) and [x[0] for x in ref_s] != [x[0] for x in now_s] \
+                        and len({x[0] for x in ref_s}) == len(ref_s):
+                    pos = {x[0]: i for i, x in enumerate(now_s)}
+                    for i in range(len(ref_s)):
+                        for j in range(i + 1, len(ref_s)):
+                            a, b = ref_s[i], ref_s[j]
+                            if pos[a[0]] > pos[b[0]]:          # inverted pair
+                                wa, wb = set(a[1]) | set(a[3]), set(b[1]) | set(b[3])
+                                ra, rb = set(a[2]), set(b[2])
+                                dep = (wa & (rb | wb)) or (wb & ra)
+                                dep = {d for d in dep if d not in ("self", "np", "cls")}
+                                if dep:
+                                    ctx.ob(fi.where, f"two statements that depend on each other through `{sorted(dep)[0]}` keep the order confirmed on the reference tree", False,
+                                           f"`{b[0][:70]}` now runs before `{a[0][:70]}`", key=f"{prop}-T1|statement-order|{mod}|{qn}|{sorted(dep)[0]}")
         ctx.count("call sites compared with the reference", nargs)
         ctx.count("quantified tests compared with the reference", nq)
         ctx.count("parameters compared with the reference", npar)
